@@ -481,6 +481,7 @@ class Boss:
     S3_closing.upon(close, enter=S3_closing, outputs=[])
     S3_closing.upon(send, enter=S3_closing, outputs=[])
     S3_closing.upon(got_code, enter=S3_closing, outputs=[])
+    S3_closing.upon(got_key, enter=S3_closing, outputs=[])
     S3_closing.upon(closed, enter=S4_closed, outputs=[W_closed, send_status_closed])
     S3_closing.upon(error, enter=S4_closed, outputs=[W_close_with_error, send_status_closed])
 
@@ -494,6 +495,7 @@ class Boss:
     S4_closed.upon(close, enter=S4_closed, outputs=[])
     S4_closed.upon(send, enter=S4_closed, outputs=[])
     S4_closed.upon(got_code, enter=S4_closed, outputs=[])
+    S4_closed.upon(got_key, enter=S4_closed, outputs=[])
     S4_closed.upon(error, enter=S4_closed, outputs=[])
     # an error (e.g. ServerConnectionError) can close us while the Terminator
     # is still shutting things down: its completion is then of no interest
